@@ -7,6 +7,8 @@ import GfsSpec.SeqSpec
 import GfsSpec.WF
 import GfsProofs.IndexLemmas
 import GfsProps.C02
+import GfsGen.Facts
+import GfsModel.ExpectedSrc
 
 namespace Gfs.Props.C04
 open Gfs Gfs.Spec Gfs.Proofs
@@ -73,5 +75,10 @@ example : ∃ s, Seq.parse .hash1 ['a','-','1','2','.','x'] = .ok s ∧ s.index 
     simp at hfr
     have := hz '1' (by rw [← hfr]; simp)
     exact absurd this (by decide)
+
+/-- the declarations of /repo this property's model and specification were written from are,
+    on this run, the ones the model was last aligned with (digest of their comment- and
+    layout-insensitive fingerprints, re-extracted by tools/gofacts) -/
+theorem C04_source : Gfs.Gen.sourceDigestC04 = Gfs.expectedSourceDigestC04 := by decide
 
 end Gfs.Props.C04
